@@ -1013,7 +1013,7 @@ void target_run(void)
 	vk_hooks.wait_block = hook_wait_block; vk_hooks.quiescent = hook_quiescent; vk_hooks.wait_return = hook_wait_return;
 	vk_hooks.wait_error = hook_wait_error; vk_hooks.tfd_set = hook_tfd_set; vk_hooks.poll_is_probe = hook_poll_is_probe; vk_hooks.io_pre = hook_io_pre;
 	{ struct sigaction sa; memset(&sa, 0, sizeof sa); sa.sa_handler = sigusr2_poster; sigaction(SIGUSR2, &sa, NULL); }
-	vk_active = 1;
+	vk_active = 1; { extern int vlock_active; vlock_active = 1; }
 	iv_set_fatal_msg_handler(fatal_handler);
 
 	make_channels();
